@@ -496,13 +496,13 @@ func (p *provRun) judgeIncrease(d int64, k *KnownASG, err error, exit bool) {
 			return
 		}
 	}
-	for id := range acked {
+	for _, id := range sortedKeys(acked) {
 		if !inF[id] {
 			p.viol("C17", "c17-attach-once", "foreign", "", "attached instance "+id+" that the fleet did not return", f)
 			return
 		}
 	}
-	for id := range termd {
+	for _, id := range sortedKeys(termd) {
 		if !inF[id] {
 			p.viol("C18", "c18-both", "foreign-terminate", "", "terminated instance "+id+" that this fleet did not return", f)
 			return
@@ -686,9 +686,13 @@ func (p *provRun) opGetInstance(s *Stream) {
 	pid := oddProviderIDs[s.Intn(len(oddProviderIDs))]
 	if s.Chance(0.5) {
 		k := p.known()
-		for _, v := range k.Instances {
-			pid = v
-			break
+		ids := make([]string, 0, len(k.Instances))
+		for id := range k.Instances {
+			ids = append(ids, id)
+		}
+		sort.Strings(ids) // never let map order pick
+		if len(ids) > 0 {
+			pid = k.Instances[ids[0]]
 		}
 	}
 	p.begin("GetInstance(" + pid + ")")
